@@ -51,6 +51,9 @@ pub struct StoreCfg {
     pub thr_frag: f64,
     pub thr_dead: u64,
     pub thr_small: u64,
+    /// merge policy "window" (hours of the day, inclusive) instead of always / never
+    #[serde(default)]
+    pub merge_window: Option<(u32, u32)>,
 }
 
 impl Default for StoreCfg {
@@ -68,6 +71,7 @@ impl Default for StoreCfg {
             thr_frag: 0.4,
             thr_dead: 128 << 20,
             thr_small: 10 << 20,
+            merge_window: None,
         }
     }
 }
